@@ -323,7 +323,13 @@ func optStr(s string, ok bool) string {
 // ---------------------------------------------------------------------------
 // generators
 
-var hostPool = []string{"", "betatest", "api.example.com", "svc:8080", "beta.internal"}
+var hostPool = []string{"", "betatest", "api.example.com", "svc:8080", "beta.internal",
+	"*.beta.example", "*a.beta.example", "svc-?.beta.example", "api.beta.example"}
+
+// hosts a caller may name: exact keys, hosts only a glob key matches (one pattern, two
+// patterns, '?'), a host with an exact key and a glob key, hosts nothing matches
+var dstPool = []string{"betatest", "api.example.com", "svc:8080", "beta.internal", "x.beta.example", "aa.beta.example",
+	"svc-1.beta.example", "svc-12.beta.example", "api.beta.example", "beta.example", "unknown.host", "*.beta.example"}
 var pathPool = []string{"/", "/pkg.Svc", "/pkg.Svc/", "/pkg.Svc/Get", "/pkg.", "/other.Api/", "/other.Api/Stream", "/p"}
 var methodPool = []string{"/pkg.Svc/Get", "/pkg.Svc/GetAll", "/pkg.Svc/Put", "/pkg.Svc2/Get", "/other.Api/Stream", "/other.Api/X",
 	"/p.q/r", "/zz.None/Nothing", "/pkg.Svc/Get/extra"}
@@ -439,21 +445,25 @@ func genMD(r *rand.Rand, keys []string, maxKeys int) metadata.MD {
 
 // dsthost values: table hosts, their upper-case / :80 forms, unknown hosts, none, several
 func addDstHost(r *rand.Rand, md metadata.MD) {
-	switch r.Intn(10) {
+	pick := func() string { return dstPool[r.Intn(len(dstPool))] }
+	switch r.Intn(12) {
 	case 0, 1, 2:
 		return
 	case 3:
-		md["dsthost"] = []string{hostPool[1+r.Intn(len(hostPool)-1)], hostPool[1+r.Intn(len(hostPool)-1)]}
+		md["dsthost"] = []string{pick(), pick()}
 	case 4:
-		md["dsthost"] = []string{strings.ToUpper(hostPool[1+r.Intn(len(hostPool)-1)])}
+		md["dsthost"] = []string{strings.ToUpper(pick())}
 	case 5:
-		md["dsthost"] = []string{hostPool[1+r.Intn(len(hostPool)-1)] + ":80"}
+		md["dsthost"] = []string{pick() + ":80"}
 	case 6:
-		md["dsthost"] = []string{"unknown.host"}
+		h := pick()
+		md["dsthost"] = []string{strings.ToUpper(h[:1]) + h[1:] + ":80"}
 	case 7:
 		md["dsthost"] = []string{""}
+	case 8:
+		md["dsthost"] = []string{pick() + ":8080"}
 	default:
-		md["dsthost"] = []string{hostPool[1+r.Intn(len(hostPool)-1)]}
+		md["dsthost"] = []string{pick()}
 	}
 }
 
@@ -661,6 +671,9 @@ func lookupCases(run *vh.Run, r *rand.Rand, burls []string) {
 			addDstHost(r, md)
 			if _, ok := md["dsthost"]; ok && class == "lookup" {
 				class = "lookup-dsthost"
+				if strings.ContainsAny(txt, "*?") {
+					class = "lookup-dsthost-glob-table"
+				}
 			}
 			ctx := context.Background()
 			mdTerm := vh.None
